@@ -191,6 +191,13 @@ func gExec(cs *gCase) *gRun {
 
 	// ---- the pipeline ----
 	run.Routes = gRoutes(p, abs)
+	hub.mu.Lock()
+	for _, rt := range run.Routes {
+		if rt.Forbidden != "" {
+			hub.pass = append(hub.pass, rt.Forbidden)
+		}
+	}
+	hub.mu.Unlock()
 	reqs := make([]simReq, len(p.Ops))
 	var stream []byte
 	var frames [][]byte
@@ -539,6 +546,15 @@ func gCheckCommon(run *gRun) []lib.Failure {
 				gTypeName(succ)+" or an error STATUS", gFrameText(f))
 			continue
 		}
+		if rt.Forbidden != "" {
+			for _, c := range run.Calls[run.Setup:] {
+				if strings.HasPrefix(c.Key, rt.Forbidden) {
+					fail("oracle", "rs/handle-method-mismatch", fmt.Sprintf("%s on a %s handle was passed to the handler of the handle's own operation (%s called)", o.K, rt.HKind, c.Op),
+						"an error STATUS without any handler call", c.Key+" ("+c.Op+")")
+					break
+				}
+			}
+		}
 		if rt.Sim.Gate == "" {
 			if rt.CloseKey != "" {
 				if cs := byKey[rt.CloseKey]; len(cs) != 1 {
@@ -624,7 +640,13 @@ func gCheckCommon(run *gRun) []lib.Failure {
 		}
 	}
 	for _, c := range run.Calls[run.Setup:] {
-		if !want[c.Key] && c.Op != "Close" && c.Start < pipelineEnd {
+		forb := false
+		for _, rt := range run.Routes {
+			if rt.Forbidden != "" && strings.HasPrefix(c.Key, rt.Forbidden) {
+				forb = true
+			}
+		}
+		if !want[c.Key] && !forb && c.Op != "Close" && c.Start < pipelineEnd {
 			fail("oracle", "calls/unrequested/"+srv, "an instrumented call was made that no request of the stream accounts for", nil, c.Key+" ("+c.Op+")")
 		}
 	}
